@@ -132,7 +132,7 @@ Theorem impl_refines_spec f S e : eval cart_impl f S e = eval cart f S e -> run_
 Proof. intros H. unfold run_impl, eval_spec. rewrite run_refines, H. reflexivity. Qed.
 
 Theorem empty_domain_refuted : exists e, fst (run_impl 10 [[]] e) <> eval_spec 10 [[]] e.
-Proof. exists (EFor [(101%N, DList (EList [])); (102%N, DList (EList [ENum 1; ENum 2]))] (EName 102%N)).
+Proof. exists (EFor [(101%N, DList (EList [])); (102%N, DList (EList [enum 1; enum 2]))] (EName 102%N)).
   vm_compute. discriminate. Qed.
 
 (* C13: any sequence of evaluations over one scope stack returns, per evaluation, its solo value, and leaves the stack as it was *)
